@@ -129,6 +129,25 @@ def coreImplMachine {σ : Type} (D : CoreDesc σ) (w : Nat) : Machine (Pool σ) 
           if b.length % D.K.bs ≠ 0 ∨ b.length ≠ gb.length then (p, bad)
           else let r := applyBlocks D.K w s (chunks D.K.bs b); (p.set r.2, "out " ++ toHex r.1.flatten)
         | _, _ => (p, bad)
+      | ["partial", x] =>
+        -- consumes the core; the object continues as a fresh core created from the state exported before the call
+        match fromHex x with
+        | some b =>
+          let p' := p.set (D.reinit (D.ivState s))
+          (match applyPartial D.K w s b with
+           | some o => (p', "out " ++ toHex o)
+           | none => (p', "err"))
+        | none => (p, bad)
+      | ["partialb", x, g] =>
+        match fromHex x, fromHex g with
+        | some b, some gb =>
+          if b.length ≠ gb.length then (p, bad)
+          else
+            let p' := p.set (D.reinit (D.ivState s))
+            (match applyPartial D.K w s b with
+             | some o => (p', "out " ++ toHex o)
+             | none => (p', "err"))
+        | _, _ => (p, bad)
       | ["setpos", n] =>
         match n.toNat? with
         | some v => if D.K.cw = 0 ∨ v ≥ 2 ^ D.K.cw then (p, bad) else (p.set (D.K.setPos s v), "ok")
@@ -231,6 +250,26 @@ def coreSpecMachine {σ : Type} (D : CoreDesc σ) : Machine (Pool (Nat × Nat)) 
         | some b, some gb =>
           if b.length % bs ≠ 0 ∨ b.length ≠ gb.length then (p, bad)
           else (adv (b.length / bs), "out " ++ toHex (xorB b (ksN (b.length / bs))))
+        | _, _ => (p, bad)
+      | ["partial", x] =>
+        -- definition: data ⊕ keystream from the current block on; whether the core-level call reports exhaustion is left
+        -- open (the byte-level wrapper owns that contract): `out …|err` while the request fits, anything but a panic beyond
+        match fromHex x with
+        | some b =>
+          let nb := (b.length + bs - 1) / bs
+          let p' := p.set (blk, 0)
+          let fits : Bool := match D.limit with | some lim => decide (st.2 + nb ≤ lim) | none => true
+          if fits then (p', "out " ++ toHex (xorB b (ksN nb)) ++ "|err") else (p', "?")
+        | none => (p, bad)
+      | ["partialb", x, g] =>
+        match fromHex x, fromHex g with
+        | some b, some gb =>
+          if b.length ≠ gb.length then (p, bad)
+          else
+            let nb := (b.length + bs - 1) / bs
+            let p' := p.set (blk, 0)
+            let fits : Bool := match D.limit with | some lim => decide (st.2 + nb ≤ lim) | none => true
+            if fits then (p', "out " ++ toHex (xorB b (ksN nb)) ++ "|err") else (p', "?")
         | _, _ => (p, bad)
       | ["setpos", n] =>
         match n.toNat? with
